@@ -423,5 +423,12 @@ func (e *Env) TakeEvents() (atomicEv, asyncEv []Ev) {
 
 // Close stops the cache's background goroutine.
 func (e *Env) Close() {
+	if e.C == nil {
+		return
+	}
 	e.C.StopAllGoroutines()
+	// The cache registers a runtime cleanup on the *Cache whose argument (the implementation) references the
+	// handler closures, and those reference this Env: while Env.C points back at the *Cache it can never be
+	// collected (runtime.AddCleanup: "if ptr is reachable from arg, ptr will never be collected"). Break the cycle.
+	e.C = nil
 }
